@@ -147,13 +147,12 @@ def pdsEntriesOf (m : Dict) : List (Text × Val) :=
   m.filterMap (fun kv => match kv.1 with | .pds t => some (t, kv.2) | _ => none)
 
 /-- `_pds_to_de`: sorted keys, `int(key[3:])`, `len(value)`, greedy packing -/
-def pdsToDe (k : IntClasses) (m : Dict) : Outcome (List Text) := do
-  let es ← Outcome.mapO (fun (kv : Text × Val) =>
+def pdsToDe (k : IntClasses) (m : Dict) : Outcome (List Text) :=
+  (Outcome.mapO (fun (kv : Text × Val) =>
     match pyInt k kv.1, kv.2 with
     | some tag, .str v => (.ok (pdsEntry tag v) : Outcome Text)
     | none, _ => .escape .valueError
-    | some _, _ => .escape .typeError) (sortPds (pdsEntriesOf m))
-  .ok (pdsPack es [])
+    | some _, _ => .escape .typeError) (sortPds (pdsEntriesOf m))).bind (fun es => .ok (pdsPack es []))
 
 /-- `_pds_to_dict`: tag(4) length(3) value walk.  A malformed length is a ValueError, which the
     caller turns into the library error; a negative length is rejected the same way. -/
@@ -263,16 +262,20 @@ def derived (env : Env) (bit : Nat) (f : FieldCfg) (v : Val) : Outcome Dict :=
     | _ => .escape .typeError
   | _ => .ok []
 
+/-- the processor-specific transformation of a decoded text: PAN masking (first six, last four),
+    PAN prefix (first nine), otherwise unchanged -/
+def transform (f : FieldCfg) (t : Text) : Text :=
+  match f.proc with
+  | .pan => Card.mask t 42
+  | .panPrefix => Card.panPrefix t
+  | _ => t
+
 /-- text element: decode, mask / prefix, typed conversion, derived entries -/
 def decodeTextField (env : Env) (bit : Nat) (f : FieldCfg) (raw : Bytes) : Outcome Dict :=
   match env.codec.decode raw with
   | none => .dataError
   | some text =>
-    let text' := match f.proc with
-      | .pan => Card.mask text 42
-      | .panPrefix => Card.panPrefix text
-      | _ => text
-    ((stringToPyType env f text').catchAs isValueError).bind (fun v =>
+    ((stringToPyType env f (transform f text)).catchAs isValueError).bind (fun v =>
       (derived env bit f v).bind (fun sub => .ok (Dict.update [(Key.de bit, v)] sub)))
 
 /-- `_iso8583_to_field`: returns the entries for this element and the message increment -/
@@ -358,26 +361,20 @@ def encodeText (env : Env) (t : Text) : Outcome Bytes :=
   | none => .escape .unicodeError
 
 /-- `_field_to_iso8583` -/
-def encodeField (env : Env) (f : FieldCfg) (v : Val) : Outcome Bytes := do
-  let s ← pyTypeToString env f v
-  let ls := f.prefixLen
-  match s with
-  | .str t =>
-    if ls = 0 then encodeText env (fitLeft f.length t)
-    else
-      if 10 ^ ls ≤ t.length then .dataError     -- longer than the prefix can count: refused
-      else do
-        let p ← encodeText env (fmtInt ls (Int.ofNat t.length))
-        let body ← encodeText env t
-        .ok (p ++ body)
-  | .bytes b =>
-    if ls = 0 then .ok (b.take f.length)
-    else
-      if 10 ^ ls ≤ b.length then .dataError
-      else do
-        let p ← encodeText env (fmtInt ls (Int.ofNat b.length))
-        .ok (p ++ b)
-  | _ => .escape .typeError
+def encodeField (env : Env) (f : FieldCfg) (v : Val) : Outcome Bytes :=
+  (pyTypeToString env f v).bind (fun s =>
+    match s with
+    | .str t =>
+      if f.prefixLen = 0 then encodeText env (fitLeft f.length t)
+      else if 10 ^ f.prefixLen ≤ t.length then .dataError     -- longer than the prefix can count: refused
+      else
+        (encodeText env (fmtInt f.prefixLen (Int.ofNat t.length))).bind (fun p =>
+          (encodeText env t).bind (fun body => .ok (p ++ body)))
+    | .bytes b =>
+      if f.prefixLen = 0 then .ok (b.take f.length)
+      else if 10 ^ f.prefixLen ≤ b.length then .dataError
+      else (encodeText env (fmtInt f.prefixLen (Int.ofNat b.length))).bind (fun p => .ok (p ++ b))
+    | _ => .escape .typeError)
 
 /-- PDS carrier elements in ascending order -/
 def pdsCarriers (cfg : Config) : List Nat :=
@@ -390,7 +387,8 @@ def assignCarriers : List Nat → List Text → Dict → Outcome Dict
   | [], _ :: _, _ => .escape .indexError
   | c :: cs, t :: ts, m => assignCarriers cs ts (Dict.set m (.de c) (.str t))
 
-/-- the field loop of `_dict_to_iso8583` over the given bits (2..128) -/
+/-- the field loop of `_dict_to_iso8583` over the given bits (2..128): the bits actually emitted
+    and the concatenated element data -/
 def encodeBits (env : Env) (cfg : Config) (m : Dict) : List Nat → Outcome (List Nat × Bytes)
   | [] => .ok ([], [])
   | bit :: bits =>
@@ -399,10 +397,9 @@ def encodeBits (env : Env) (cfg : Config) (m : Dict) : List Nat → Outcome (Lis
       if present v then
         match cfg.get bit with
         | none => .escape .keyError
-        | some f => do
-          let b ← encodeField env f v
-          let r ← encodeBits env cfg m bits
-          .ok (bit :: r.1, b ++ r.2)
+        | some f =>
+          (encodeField env f v).bind (fun b =>
+            (encodeBits env cfg m bits).bind (fun r => .ok (bit :: r.1, b ++ r.2)))
       else encodeBits env cfg m bits
     | none => encodeBits env cfg m bits
 
@@ -410,17 +407,23 @@ def encodeBits (env : Env) (cfg : Config) (m : Dict) : List Nat → Outcome (Lis
 def bitmapOf (presentBits : List Nat) : Bytes :=
   bytesOfBits ((List.range 128).map (fun i => i == 0 || presentBits.contains (i + 1)))
 
+/-- the MTI bytes: `message['MTI'].encode(encoding) if message.get('MTI') else b''` -/
+def encodeMti (env : Env) (m : Dict) : Outcome Bytes :=
+  match Dict.get m .mti with
+  | some (.str t) => if t.isEmpty then .ok [] else encodeText env t
+  | some _ => .escape .typeError        -- `.encode` on a non-string MTI
+  | none => .ok []
+
+/-- everything after the PDS carriers have been assigned: element loop, bitmap, MTI -/
+def encodeCore (env : Env) (cfg : Config) (hexBitmap : Bool) (m : Dict) : Outcome Bytes :=
+  (encodeBits env cfg m ((List.range 127).map (· + 2))).bind (fun r =>
+    (encodeMti env m).bind (fun mti =>
+      .ok (mti ++ (if hexBitmap then hexlify (bitmapOf r.1) else bitmapOf r.1) ++ r.2)))
+
 /-- `dumps` / `_dict_to_iso8583` -/
-def encode (env : Env) (cfg : Config) (hexBitmap : Bool) (m : Dict) : Outcome Bytes := do
-  let chunks ← pdsToDe env.classes m
-  let m' ← assignCarriers (pdsCarriers cfg) chunks m
-  let r ← encodeBits env cfg m' ((List.range 127).map (· + 2))
-  let bm := bitmapOf r.1
-  let bm' := if hexBitmap then hexlify bm else bm
-  let mti ← (match Dict.get m' .mti with
-    | some (.str t) => if t.isEmpty then (.ok [] : Outcome Bytes) else encodeText env t
-    | some _ => .escape .typeError        -- `.encode` on a non-string MTI
-    | none => .ok [])
-  .ok (mti ++ bm' ++ r.2)
+def encode (env : Env) (cfg : Config) (hexBitmap : Bool) (m : Dict) : Outcome Bytes :=
+  (pdsToDe env.classes m).bind (fun chunks =>
+    (assignCarriers (pdsCarriers cfg) chunks m).bind (fun m' =>
+      encodeCore env cfg hexBitmap m'))
 
 end Cardutil.Iso
